@@ -1046,7 +1046,10 @@ impl Interpreter {
         let module_obj = self.create_object(&guard);
 
         // Drain exports to a vector to avoid borrow conflict
-        let exports: Vec<_> = self.exports.drain().collect();
+        let mut exports: Vec<_> = self.exports.drain().collect();
+        // The keys of a module namespace are in code-unit order, whatever order they were
+        // exported (or hashed) in
+        exports.sort_by(|(a, _), (b, _)| a.as_str().encode_utf16().cmp(b.as_str().encode_utf16()));
 
         // Create properties for exports with proper live binding support
         for (export_name, module_export) in exports {
@@ -1889,7 +1892,10 @@ impl Interpreter {
         let module_obj = self.create_object(&guard);
 
         // Drain exports to a vector to avoid borrow conflict
-        let exports: Vec<_> = self.exports.drain().collect();
+        let mut exports: Vec<_> = self.exports.drain().collect();
+        // The keys of a module namespace are in code-unit order, whatever order they were
+        // exported (or hashed) in
+        exports.sort_by(|(a, _), (b, _)| a.as_str().encode_utf16().cmp(b.as_str().encode_utf16()));
 
         // Create properties for exports with proper live binding support
         for (export_name, module_export) in exports {
@@ -3845,7 +3851,10 @@ impl Interpreter {
         let module_obj = self.create_object(guard);
 
         // Drain exports to a vector to avoid borrow conflict
-        let exports: Vec<_> = self.exports.drain().collect();
+        let mut exports: Vec<_> = self.exports.drain().collect();
+        // The keys of a module namespace are in code-unit order, whatever order they were
+        // exported (or hashed) in
+        exports.sort_by(|(a, _), (b, _)| a.as_str().encode_utf16().cmp(b.as_str().encode_utf16()));
 
         // Create properties for exports with proper live binding support
         for (export_name, module_export) in exports {
